@@ -316,12 +316,12 @@ def explore(ck, n, np, tmath, atm, use_model=True):
 
 
 def main():
-    ck = vlib.Check(PROP, pkg="numeric", props="Proofs.Props.C14", driver="drv_col", extra_targets=[],
-                    lemma_files=["Proofs/Lemmas/Trapz.lean"], model_files=["Model/Column.lean", "GenReal/Atmosphere.lean"],
+    ck = vlib.Check(PROP, pkg="numeric", props="Proofs.Props.C14", more_props=["Proofs.Props.C14Refine"], driver="drv_col", extra_targets=[],
+                    lemma_files=["Proofs/Lemmas/Trapz.lean", "Proofs/Lemmas/Refine.lean"], model_files=["Model/Column.lean", "GenReal/Atmosphere.lean"],
                     trusted=["hand-written array-level model Model/Column.lean (trapezoid, IWV, CRH, pressure2height, linear interpolation), tied to the code by running it with Float on the same inputs (driver drv_col) each run",
                              "tools/py2lean for the scalar converters inside (validated by the C09 cross-run)",
                              "axis handling of n-d arrays, numpy cumsum/diff/hstack, scipy interp1d are modelled for 1-d data; other axes are exercised by the harness only",
-                             "NOT PROVED (refinement limits, validated numerically: error ratio ~4 per halving): convergence of the hydrostatic and general IWV forms; isothermal pressure2height -> (RT/g) ln(p0/p)"],
+                             "refinement limits are PROVED over the reals (Proofs/Props/C14Refine.lean: trapezoid error M/12 mesh^2 length, IWV forms agree up to an explicit O(mesh^2) bound + the 1e-16 inconsistency of the double gas constants, isothermal pressure2height -> (RT/g) ln(p0/p)); the floating-point behaviour (error ratio ~4 per halving) is validated numerically"],
                     assumptions=["0 <= vmr < 1, positive pressures strictly decreasing, positive temperatures"])
     ck.rule = ("uniform / irregular / pressure-like grids (2..2000 levels, increasing and decreasing), random integrands, 2-d arrays along both axes, "
                "moist profiles; non-trivial = distinct (grid, integrand) case")
@@ -370,6 +370,6 @@ def replay(path):
     import numpy as np
     from typhon import math as tmath
     from typhon.physics import atmosphere as atm
-    numlib.replay_by_rerun(PROP, path, lambda: vlib.Check(PROP, pkg="numeric", props="Proofs.Props.C14"),
+    numlib.replay_by_rerun(PROP, path, lambda: vlib.Check(PROP, pkg="numeric", props="Proofs.Props.C14", more_props=["Proofs.Props.C14Refine"]),
                            lambda ck: (ck.guard(lambda: explore(ck, ck.budget(120, 3000), np, tmath, atm, use_model=False)),
                                        [corpus_case(ck, c, np, tmath, atm) for _n, c in vlib.load_corpus(PROP)]))
